@@ -19,6 +19,20 @@ CHECKS = {
    note="trusts g++ __int128; transfer from 16-bit to wide instantiations rests on the shared template source plus boundary/random sampling"),
 }
 
+CHECKS.update({
+ "C10": dict(level="exploration", engine="enumeration", design="3/C10",
+   technique="complete enumeration of codes -200..999 x presence of primal/dual/objective through the real backend, against the documented range table",
+   text="The six range predicates are evaluated for all 1200 codes (exhaustive) and 9600 full driver runs with a scripted solver check the "
+        "solve message ('objective' iff a solution candidate is indicated and supplied), the code echoed in the .sol file and the -! table.",
+   note="range table transcribed from doc/source/features-guide.rst; 100-199 treated as don't-care for the objective clause"),
+ "C12": dict(level="exploration", engine="hypothesis+z3", design="3/C12",
+   technique="Hypothesis-generated multi-objective NL files x objno x multiobj x text/binary; delivered objectives compared as functions (z3) with the selected NL objectives",
+   text="Generated models with 0..4 tagged objectives are run with every objno/multiobj combination; the objectives the ModelAPI received must be "
+        "exactly the selected ones (count, order, sense, value at every feasible grid point), objno > N must be rejected without solving, "
+        "and the .sol objno line must name the objective used.",
+   note="same trusted base as C01; 'both objno and multiobj given' accepts either documented behaviour"),
+})
+
 NOT_APPLICABLE = []
 
 def main():
